@@ -4,12 +4,14 @@ import vlib
 
 PROP = "C11"
 PROPS_FILE = "props/C11.v"
-COQ_FILES = ["gen/Gen.v", "proofs/SnaProofs.v", "model/RQ.v", "model/RPQ.v", "proofs/RQProofs.v",
-             "props/C11.v", "props/RQSafety.v"]
+COQ_FILES = ["gen/Gen.v", "proofs/SnaProofs.v", "model/RQ.v", "model/RPQ.v", "proofs/RPQProofs.v", "proofs/RQProofs.v",
+             "model/E2E.v", "proofs/E2EProofs.v", "props/C11.v", "props/RQSafety.v"]
 TRUSTED_BASE = [
     "Coq 8.16.1 kernel; vm_compute only in Examples/refutation witnesses; no native_compute",
     "translator (serial arithmetic, isReassemblyQueueLimitReached) + hand-written model coq/model/RQ.v of "
-    "reassembly_queue.go and of getMyReceiverWindowCredit/acceptPayloadData (association.go); canPush from coq/model/RPQ.v",
+    "reassembly_queue.go and of getMyReceiverWindowCredit (incl. the detached streams of 243f816)/acceptPayloadData (association.go); "
+    "canPush from coq/model/RPQ.v; the inbound stream reset (resetStreamsIfAny: stream leaves the map, kept as detached while it holds "
+    "data) is e2e_reset in coq/model/E2E.v",
     "extraction (ExtrOcamlBasic only) + /verif/ocaml/cmp_rq.ml; Go harness zz_verif_rq_test.go, zz_verif_rqmon_test.go, zz_verif_rqdrain_test.go (overlay)",
     "modelled, not verified: sort.Slice is the transcribed insertion sort (Go's algorithm for n <= 12); above 12 elements the "
     "differential only generates slices whose keys are distinct within a quarter of the number space (strict total order), where "
@@ -40,6 +42,9 @@ def correspondence(ctx):
     vlib.monitor(ctx, "assoc-window-on-implementation", "TestVerifRQWindow",
                  {"VERIF_N": ctx.scale(120, 3000), "VERIF_OPS": 250, "VERIF_CORPUS": os.path.join(vlib.VERIF, "corpus/rqwin.ops")},
                  fail_prefixes=("RQWIN ",), classify=_key, summary_prefix="RQWINSUM")
+    # association level: credit over map + detached streams, inbound resets, reads on detached streams (E2E.v)
+    vlib.differential(ctx, "e2e-receiver-step-commuting", "TestVerifE2ERecv", "e2e",
+                      {"VERIF_N": ctx.scale(100, 3000), "VERIF_OPS": 160})
     vlib.monitor(ctx, "assoc-drain-to-full-window", "TestVerifRQDrain",
                  {"VERIF_N": ctx.scale(300, 6000), "VERIF_OPS": 200},
                  fail_prefixes=("RQDRAIN ",), classify=_key, summary_prefix="RQDRAINSUM")
@@ -56,10 +61,13 @@ LEVEL_TEXT = ("Coq theorems over all operation histories of the reassembly queue
               "modes, reads with any buffer length, the four forward operations, any cursor start values and entry limit): the "
               "byte counter equals the payload bytes held, the clamp of subtractNumBytes is unreachable, counter 0 iff only "
               "empty payloads are held; a_rwnd = max 0 (buffer - sum of counters); admission implies the TSN window and, at "
-              "zero credit, a TSN strictly below the highest received. The memory clause is refuted for empty payloads "
-              "(theorem c11_memory_bound_refuted_zero_length) and, at association level, for unread bytes of streams removed "
-              "by an inbound reset (monitor). Model tied to reassembly_queue.go by an operation-sequence differential with a "
-              "full state dump after every operation and by predicate monitors on the implementation.")
+              "zero credit, a TSN strictly below the highest received; the window counts the unread data of streams the peer has "
+              "reset (detached streams, fix 243f816) and a reset does not change it (c11_window_counts_reset_streams, "
+              "c11_reset_keeps_window). The memory clause is refuted for empty payloads (theorem "
+              "c11_memory_bound_refuted_zero_length, finding D13). Model tied to reassembly_queue.go by an operation-sequence "
+              "differential with a full state dump after every operation, to the association-level functions by the composed-receiver "
+              "step-commuting differential (arrivals, reads, inbound resets, reads on detached streams, window compared in every "
+              "state) and by predicate monitors on the implementation.")
 LEVEL_NOTE = ("Trusted: Coq kernel, hand-written model RQ.v, extraction, harness. Hypothesis: < 2^63 payload bytes pushed per "
               "history. The sort hypothesis (see trusted base) restricts the differential's generator for slices above 12 elements, "
               "not the theorems.")
